@@ -64,6 +64,7 @@ type Val struct {
 	A    *Addr
 	Fn   *ssa.Function
 	Bind []Val
+	Orig string // KFunc loaded from a struct field: "pkg.Type.field"
 }
 
 func intVal(t types.Type, s string) Val  { return Val{K: KInt, T: t, S: s} }
